@@ -148,10 +148,21 @@ def expanded_sites(prog, f, depth=0):
                 if isinstance(e, ast.Name) and e.id in bind:
                     return bind[e.id]
                 return None
-            blk_actual = sub(blk_expr)
-            if blk_actual is None:
-                continue
-            block = prog.resolve_callable(f, f.module, blk_actual)
+            pp = _param_partial(h, blk_expr)
+            if pp is not None:
+                # the helper binds the caller's extra keywords to the caller's function: `partial(func, **kwargs)`
+                tgt = prog.resolve_callable(f, f.module, bind[pp]) if pp in bind else None
+                kws = {k.arg: (sub(k.value) if sub(k.value) is not None else k.value) for k in blk_expr.keywords if k.arg}
+                if any(k.arg is None for k in blk_expr.keywords):
+                    kws.update({k.arg: k.value for k in n.keywords if k.arg and k.arg not in h.params + h.kwonly})
+                block = Partial(tgt, [], kws, blk_expr) if tgt is not None else None
+                if block is None:
+                    continue
+            else:
+                blk_actual = sub(blk_expr)
+                if blk_actual is None:
+                    continue
+                block = prog.resolve_callable(f, f.module, blk_actual)
             arrays = []
             for a in hs.arrays:
                 arrays.append(sub(a) if sub(a) is not None else a)
@@ -165,7 +176,18 @@ def expanded_sites(prog, f, depth=0):
 
 
 def _is_param_expr(f, e):
-    return isinstance(e, ast.Name) and (e.id in f.params or e.id in f.kwonly)
+    if isinstance(e, ast.Name) and (e.id in f.params or e.id in f.kwonly):
+        return True
+    return _param_partial(f, e) is not None
+
+
+def _param_partial(f, e):
+    """`partial(<parameter of f>, **<the **kwargs parameter of f>)` (also with explicit keywords): the parameter name, else None"""
+    if isinstance(e, ast.Call) and norm(e.func).split('.')[-1] == 'partial' and len(e.args) == 1 and isinstance(e.args[0], ast.Name) and \
+            (e.args[0].id in f.params or e.args[0].id in f.kwonly) and \
+            all(k.arg is not None or (isinstance(k.value, ast.Name) and k.value.id == f.kwarg) for k in e.keywords):
+        return e.args[0].id
+    return None
 
 
 # ------------------------------------------------------------------------------------------ footprints
